@@ -30,96 +30,99 @@ func (source *SR) NewTransform(dest *SR) (Transformer, error) {
 		// The WGS84 workaround below re-points source for the rest of this
 		// call only; it must not change the source of later calls.
 		source := source
-		point := []float64{x, y}
+		var err error
+		z := 0.
 		// Workaround for datum shifts towgs84, if either source or destination projection is not wgs84
 		if checkNotWGS(source, dest) || checkNotWGS(dest, source) {
 			wgs84, err := Parse("WGS84")
 			if err != nil {
 				return math.NaN(), math.NaN(), err
 			}
-			t, err := source.NewTransform(wgs84)
-			if err != nil {
-				return math.NaN(), math.NaN(), err
-			}
-			point[0], point[1], err = t(point[0], point[1])
+			// The ellipsoidal height that the first datum shift produces is
+			// carried into the second one, as proj4js does.
+			x, y, z, err = transform3(source, wgs84, x, y, z)
 			if err != nil {
 				return math.NaN(), math.NaN(), err
 			}
 			source = wgs84
 		}
-		_, sourceInverse, err := source.Transformers()
+		x, y, _, err = transform3(source, dest, x, y, z)
 		if err != nil {
 			return math.NaN(), math.NaN(), err
 		}
-		destForward, _, err := dest.Transformers()
-		if err != nil {
-			return math.NaN(), math.NaN(), err
-		}
-
-		// DGR, 2010/11/12
-		if source.Axis != enu {
-			point, err = adjust_axis(source, false, point)
-			if err != nil {
-				return math.NaN(), math.NaN(), err
-			}
-		}
-		// Transform source points to long/lat, if they aren't already.
-		if source.Name == longlat {
-			point[0] *= deg2rad // convert degrees to radians
-			point[1] *= deg2rad
-		} else {
-			point[0] *= source.ToMeter
-			point[1] *= source.ToMeter
-			point[0], point[1], err = sourceInverse(point[0], point[1]) // Convert Cartesian to longlat
-			if err != nil {
-				return math.NaN(), math.NaN(), err
-			}
-		}
-		// Adjust for the prime meridian if necessary
-		if !math.IsNaN(source.FromGreenwich) {
-			point[0] += source.FromGreenwich
-		}
-
-		// Convert datums if needed, and if possible.
-		z := 0.
-		if len(point) == 3 {
-			z = point[2]
-		}
-		point[0], point[1], z, err = datumTransform(source.datum, dest.datum,
-			point[0], point[1], z)
-		if err != nil {
-			return math.NaN(), math.NaN(), err
-		}
-		if len(point) == 3 {
-			point[2] = z
-		}
-
-		// Adjust for the prime meridian if necessary
-		if !math.IsNaN(dest.FromGreenwich) {
-			point[0] -= dest.FromGreenwich
-		}
-
-		if dest.Name == longlat {
-			// convert radians to decimal degrees
-			point[0] *= r2d
-			point[1] *= r2d
-		} else { // else project
-			point[0], point[1], err = destForward(point[0], point[1])
-			if err != nil {
-				return math.NaN(), math.NaN(), err
-			}
-			point[0] /= dest.ToMeter
-			point[1] /= dest.ToMeter
-		}
-
-		// DGR, 2010/11/12
-		if dest.Axis != enu {
-			point, err = adjust_axis(dest, true, point)
-			if err != nil {
-				return math.NaN(), math.NaN(), err
-			}
-		}
-
-		return point[0], point[1], nil
+		return x, y, nil
 	}, nil
+}
+
+// transform3 transforms one point with height z from source to dest without
+// the WGS84 workaround and returns the transformed point and its height.
+func transform3(source, dest *SR, x, y, z float64) (float64, float64, float64, error) {
+	point := []float64{x, y}
+	_, sourceInverse, err := source.Transformers()
+	if err != nil {
+		return math.NaN(), math.NaN(), math.NaN(), err
+	}
+	destForward, _, err := dest.Transformers()
+	if err != nil {
+		return math.NaN(), math.NaN(), math.NaN(), err
+	}
+
+	// DGR, 2010/11/12
+	if source.Axis != enu {
+		point, err = adjust_axis(source, false, point)
+		if err != nil {
+			return math.NaN(), math.NaN(), math.NaN(), err
+		}
+	}
+	// Transform source points to long/lat, if they aren't already.
+	if source.Name == longlat {
+		point[0] *= deg2rad // convert degrees to radians
+		point[1] *= deg2rad
+	} else {
+		point[0] *= source.ToMeter
+		point[1] *= source.ToMeter
+		point[0], point[1], err = sourceInverse(point[0], point[1]) // Convert Cartesian to longlat
+		if err != nil {
+			return math.NaN(), math.NaN(), math.NaN(), err
+		}
+	}
+	// Adjust for the prime meridian if necessary
+	if !math.IsNaN(source.FromGreenwich) {
+		point[0] += source.FromGreenwich
+	}
+
+	// Convert datums if needed, and if possible.
+	point[0], point[1], z, err = datumTransform(source.datum, dest.datum,
+		point[0], point[1], z)
+	if err != nil {
+		return math.NaN(), math.NaN(), math.NaN(), err
+	}
+
+	// Adjust for the prime meridian if necessary
+	if !math.IsNaN(dest.FromGreenwich) {
+		point[0] -= dest.FromGreenwich
+	}
+
+	if dest.Name == longlat {
+		// convert radians to decimal degrees
+		point[0] *= r2d
+		point[1] *= r2d
+	} else { // else project
+		point[0], point[1], err = destForward(point[0], point[1])
+		if err != nil {
+			return math.NaN(), math.NaN(), math.NaN(), err
+		}
+		point[0] /= dest.ToMeter
+		point[1] /= dest.ToMeter
+	}
+
+	// DGR, 2010/11/12
+	if dest.Axis != enu {
+		point, err = adjust_axis(dest, true, point)
+		if err != nil {
+			return math.NaN(), math.NaN(), math.NaN(), err
+		}
+	}
+
+	return point[0], point[1], z, nil
 }
